@@ -62,15 +62,27 @@ def _run(cmd, cwd=None, timeout=None, input_=None):
 
 
 class lean_lock:
+    """Exclusive lock on the Lean build directory (re-entrant within one process)."""
+
+    _depth = 0
+    _file = None
+
     def __enter__(self):
-        (LEAN_DIR / ".lake").mkdir(exist_ok=True)
-        self.f = open(LEAN_DIR / ".lake" / "verif.lock", "w")
-        fcntl.flock(self.f, fcntl.LOCK_EX)
+        cls = lean_lock
+        if cls._depth == 0:
+            (LEAN_DIR / ".lake").mkdir(exist_ok=True)
+            cls._file = open(LEAN_DIR / ".lake" / "verif.lock", "w")
+            fcntl.flock(cls._file, fcntl.LOCK_EX)
+        cls._depth += 1
         return self
 
     def __exit__(self, *a):
-        fcntl.flock(self.f, fcntl.LOCK_UN)
-        self.f.close()
+        cls = lean_lock
+        cls._depth -= 1
+        if cls._depth == 0:
+            fcntl.flock(cls._file, fcntl.LOCK_UN)
+            cls._file.close()
+            cls._file = None
 
 
 TRANSLATOR_PROBLEMS: typing.List[str] = []
@@ -156,7 +168,13 @@ def audit(module) -> dict:
 
 
 def audit1(module: str) -> dict:
-    """Build `module`, scan its sources, and `#print axioms` every property theorem in it."""
+    """Build `module`, scan its sources, and `#print axioms` every property theorem in it (under one lock, so that a
+    concurrent check of another tree cannot regenerate lean/Gen between the build and the axiom report)."""
+    with lean_lock():
+        return _audit1(module)
+
+
+def _audit1(module: str) -> dict:
     res = {"module": module, "build_ok": False, "theorems": [], "examples": 0, "bad": [], "axioms": {}, "log": ""}
     ok, log = lake_build([module])
     res["build_ok"] = ok
@@ -202,7 +220,12 @@ def audit1(module: str) -> dict:
 
 
 def leanchecker(modules: typing.List[str]) -> typing.Tuple[bool, str]:
-    r = _run(["lake", "env", "leanchecker"] + modules, cwd=LEAN_DIR, timeout=3600)
+    with lean_lock():
+        regenerate()
+        b = _run(["lake", "build"] + modules, cwd=LEAN_DIR, timeout=3600)
+        if b.returncode != 0:
+            return False, b.stdout[-2000:]
+        r = _run(["lake", "env", "leanchecker"] + modules, cwd=LEAN_DIR, timeout=3600)
     return r.returncode == 0, r.stdout[-2000:]
 
 
